@@ -25,6 +25,7 @@ pub fn seeds_alphabet() -> Vec<(String, Scalar)> {
     vec![
         ("s0".into(), seed_scalar(0)),
         ("s1".into(), seed_scalar(1)),
+        ("zero".into(), Scalar::ZERO),
         ("one".into(), Scalar::ONE),
         ("l-1".into(), -Scalar::ONE),
         ("top-byte".into(), Scalar::from_bytes_mod_order(hi)),
@@ -123,7 +124,7 @@ fn batch_templates<P: G>(n: usize, d: usize, depth: usize) -> BTemplates<P> {
             };
             let ctx = contexts()[pos % 6];
             let built = build_cached::<P>(&cfg, &wit).honest();
-            let proof = lib_prove(&built, &ctx, &mut HRng::chacha(50 + pos as u64)).honest();
+            let proof = lib_prove_honest(&built, &ctx, &mut HRng::chacha(50 + pos as u64));
             row.push(BMember {
                 statement: built.statement.clone(),
                 proof,
@@ -241,7 +242,7 @@ fn long_batch_case_layout<P: G>(len: usize, d: usize, layout: &'static str) -> B
             };
             let ctx = contexts()[pos % 6];
             let built = build_cached::<P>(&cfg, &wit).honest();
-            proofs.push(lib_prove(&built, &ctx, &mut HRng::chacha(pos as u64)).honest());
+            proofs.push(lib_prove_honest(&built, &ctx, &mut HRng::chacha(pos as u64)));
             sts.push(built.statement.clone());
             ctxs.push(ctx);
             expect.push(wit.seed.map(|_| wit.blindings[0].clone()));
@@ -319,6 +320,15 @@ fn single_cases<P: G>(tier: Tier) -> Vec<Box<dyn Case>> {
                 cases.push(recover_case::<P>(cfg, format!("blinding[{}]={}", k, bn), w, CTX_A, "chacha-a"));
             }
         }
+        // every component zero / every component the same (the commitment v*H, and a mask nobody can tell apart by position)
+        for (bn, b) in [("all-zero", Scalar::ZERO), ("all-one", Scalar::ONE)] {
+            let mut w = base.clone();
+            w.seed = Some(seeds[1].1);
+            for k in 0..cfg.d {
+                w.blindings[0][k] = b;
+            }
+            cases.push(recover_case::<P>(cfg, format!("blindings={}", bn), w, CTX_A, "chacha-a"));
+        }
         // contexts and RNG models
         for ctx in contexts().into_iter().skip(1) {
             let mut w = base.clone();
@@ -335,7 +345,7 @@ fn single_cases<P: G>(tier: Tier) -> Vec<Box<dyn Case>> {
 }
 
 pub fn run(rep: &mut Report) {
-    rep.rule = "m=1 configurations (all 7 bit lengths x capacity {1,2,8} x degree 1..6) x {5 seeds incl. 1, l-1, top-byte; value x valid \
+    rep.rule = "m=1 configurations (all 7 bit lengths x capacity {1,2,8} x degree 1..6) x {6 seeds incl. 0, 1, l-1, top-byte; value x valid \
                 promise alphabet; blinding alphabet per component; contexts; RNG models} with pairwise distinct blinding components; \
                 oracle: mask == blinding vector component by component in both recovering modes, None in VerifyOnly, == reference \
                 recovery; batch-composition BFS over {seedA, unseeded, aggregated, seedB} to depth 4 in all three modes (members at \
